@@ -216,6 +216,9 @@ def run_isolated(fn, *args):
         code = 1
         try:
             os.close(r)
+            # an injected exception that lands inside a generator's finaliser is reported by the
+            # interpreter as "Exception ignored in ..." on stderr: noise, not a result
+            sys.unraisablehook = lambda *a: None
             try:
                 res = ('ok', fn(*args))
             except BaseException:
